@@ -134,3 +134,140 @@ Proof.
   rewrite <- (app_nil_r (frame_obj ms)).
   rewrite (scan_object_ok value_top top_text value_top_ok ms [] H). reflexivity.
 Qed.
+
+(** * what the encoder writes is such text *)
+Lemma neutral_app a : forall b, neutral false a = true -> neutral false (a ++ b) = neutral false b.
+Proof.
+  assert (G : forall a esc b, neutral esc a = true -> neutral esc (a ++ b) = neutral false b).
+  { induction a0 as [|c a0 IH]; intros esc b H; simpl in H.
+    - destruct esc; [discriminate | reflexivity].
+    - cbn [app neutral]. destruct esc; [now apply IH|].
+      apply andb_true_iff in H as [H H3]. rewrite H. now apply IH. }
+  intros b H. now apply G.
+Qed.
+
+Lemma neutral_high l : Forall (fun b => 128 <= b) l -> neutral false l = true.
+Proof.
+  induction 1 as [|c l Hc _ IH]; [reflexivity|]. cbn [neutral].
+  assert (N.eqb c 34 = false) as -> by (apply N.eqb_neq; lia).
+  assert (N.ltb c 32 = false) as -> by (apply N.ltb_ge; lia).
+  assert (N.eqb c 92 = false) as -> by (apply N.eqb_neq; lia). exact IH.
+Qed.
+
+Lemma neutral_esc_ascii b : b < 128 -> neutral false (esc_ascii b) = true.
+Proof.
+  intros H. destruct b as [|p]; [reflexivity|].
+  do 7 (try destruct p as [p|p|]); try (exfalso; lia); vm_compute; reflexivity.
+Qed.
+
+Ltac bool_facts :=
+  repeat match goal with
+         | H : _ && _ = true |- _ => apply andb_true_iff in H; destruct H
+         | H : _ || _ = true |- _ => apply orb_true_iff in H; destruct H
+         | H : in_range _ _ _ = true |- _ => unfold in_range in H
+         | H : cont _ = true |- _ => unfold cont, in_range in H
+         | H : N.leb _ _ = true |- _ => apply N.leb_le in H
+         | H : N.eqb _ _ = true |- _ => apply N.eqb_eq in H
+         | H : N.ltb _ _ = false |- _ => apply N.ltb_ge in H
+         end.
+
+(** a multi-byte sequence consists of bytes >= 128 *)
+Lemma rune_bytes_high s n : rune_len s = S n ->
+  match s with b0 :: _ => N.ltb b0 128 = false | [] => False end ->
+  Forall (fun b => 128 <= b) (firstn (S n) s).
+Proof.
+  destruct s as [|b0 [|b1 [|b2 [|b3 r]]]]; cbn [rune_len]; intros H Hb; try contradiction;
+    rewrite Hb in H; split_ifs; try discriminate; injection H as <-; cbn [firstn];
+    bool_facts; repeat (constructor; [lia|]); constructor.
+Qed.
+
+Lemma neutral_esc_step s : neutral false (fst (esc_step s)) = true.
+Proof.
+  destruct s as [|b r]; [reflexivity|]. unfold esc_step.
+  destruct (N.ltb b 128) eqn:E; [apply neutral_esc_ascii; now apply N.ltb_lt|].
+  destruct (rune_len (b :: r)) as [|n] eqn:Hn; [reflexivity|].
+  destruct (list_eqb N.eqb (firstn (S n) (b :: r)) [226; 128; 168]); [reflexivity|].
+  destruct (list_eqb N.eqb (firstn (S n) (b :: r)) [226; 128; 169]); [reflexivity|].
+  cbn [fst]. apply neutral_high. apply rune_bytes_high; auto.
+Qed.
+
+Lemma neutral_escape s : neutral false (escape s) = true.
+Proof.
+  unfold escape. generalize 0%nat as k. induction s as [|b r IH]; intros k; [reflexivity|].
+  cbn [walk]. destruct k as [|k]; [|apply IH].
+  pose proof (neutral_esc_step (b :: r)) as Hs. destruct (esc_step (b :: r)) as [out n]. cbn [fst] in Hs.
+  rewrite neutral_app by assumption. apply IH.
+Qed.
+
+Lemma enc_str_text s : str_text (enc_str s).
+Proof. exists (escape s). split; [reflexivity | apply neutral_escape]. Qed.
+
+Lemma neutral_b64 l : Forall b64_out l -> neutral false l = true.
+Proof.
+  induction 1 as [|c l Hc _ IH]; [reflexivity|]. cbn [neutral]. unfold b64_out in Hc.
+  assert (N.eqb c 34 = false) as -> by (apply N.eqb_neq; lia).
+  assert (N.ltb c 32 = false) as -> by (apply N.ltb_ge; lia).
+  assert (N.eqb c 92 = false) as -> by (apply N.eqb_neq; lia). exact IH.
+Qed.
+Lemma enc_bytes_text p : bytes_ok (pl_bytes p) -> flat_text (enc_bytes p).
+Proof.
+  intros H. destruct p as [b|]; [|now right]. left. exists (b64enc b). split; [reflexivity|].
+  apply neutral_b64. now apply b64enc_chars.
+Qed.
+Lemma meta_members_flat l : flat_members (meta_members l).
+Proof.
+  unfold flat_members, meta_members. apply Forall_forall. intros kv Hin.
+  apply in_map_iff in Hin as (x & <- & _). cbn [fst snd]. split; [apply enc_str_text | left; apply enc_str_text].
+Qed.
+Lemma enc_meta_text m : top_text (enc_meta m).
+Proof.
+  destruct m as [l|]; [|left; now right]. right. exists (meta_members l). split; [reflexivity | apply meta_members_flat].
+Qed.
+Lemma key_texts : str_text k_dest /\ str_text k_uuid /\ str_text k_payload /\ str_text k_metadata.
+Proof.
+  repeat split; [exists n_dest | exists n_uuid | exists n_payload | exists n_metadata]; split; reflexivity.
+Qed.
+
+Lemma env_members_top e : bytes_ok (pl_bytes (e_payload e)) -> top_members (env_members e).
+Proof.
+  intros Hb. destruct key_texts as (K1 & K2 & K3 & K4). unfold top_members, env_members.
+  constructor; [split; [exact K1 | left; left; apply enc_str_text]|].
+  constructor; [split; [exact K2 | left; left; apply enc_str_text]|].
+  constructor; [split; [exact K3 | left; now apply enc_bytes_text]|].
+  constructor; [split; [exact K4 | apply enc_meta_text]|]. constructor.
+Qed.
+
+(** ** [framing_ok] is no longer an assumption *)
+Theorem framing_std e : bytes_ok (pl_bytes (e_payload e)) -> framing_ok unframe_std e.
+Proof.
+  intros Hb. split.
+  - apply unframe_frame. now apply env_members_top.
+  - intros l _. apply unframe_frame. unfold top_members.
+    eapply Forall_impl; [|apply (meta_members_flat l)]. intros kv [H1 H2]. split; auto. now left.
+Qed.
+
+(** * the envelope round trips, closed: no hypothesis about encoding/json is left *)
+Theorem envelope_roundtrip_closed nu dest m w : envelope_ok (env_of dest m) ->
+  wrap jenc_env nu dest m = Ok w -> unwrap (jdec_env unframe_std) w = Ok (dest, m).
+Proof.
+  intros Hok. apply (envelope_roundtrip_json unframe_std nu); auto. apply framing_std. apply Hok.
+Qed.
+
+Theorem publisher_roundtrip_closed nu cfg inner_ok dest ms ft ws :
+  (forall m, In m ms -> envelope_ok (env_of dest m)) ->
+  fwd_publish jenc_env nu cfg inner_ok dest ms = Ok (ft, ws) ->
+  ft = (if str_eqb cfg [] then default_forwarder_topic else cfg)
+  /\ map (unwrap (jdec_env unframe_std)) ws = map (fun m => Ok (dest, m)) ms.
+Proof.
+  intros H. apply (publisher_roundtrip_json unframe_std nu). intros m Hin. split; [now apply H|].
+  apply framing_std. apply (H m Hin).
+Qed.
+
+(** for every destination and every message made of valid UTF-8 / bytes: wrap succeeds and unwrap
+    gives the destination and the message back *)
+Corollary envelope_identity nu dest m : dest <> [] -> envelope_ok (env_of dest m) ->
+  exists w, wrap jenc_env nu dest m = Ok w /\ unwrap (jdec_env unframe_std) w = Ok (dest, m).
+Proof.
+  intros Hd Hok. eexists. split; [now apply wrap_json_total|].
+  apply (envelope_roundtrip_closed nu); auto. now apply wrap_json_total.
+Qed.
